@@ -30,6 +30,7 @@ DOC = {
         "provider accessors."
     ),
     "rules": {
+        "C03-R7": "the reported data are the weighted private copy (never the caller's array) and the matrix reduction applies relations before constraints - the order retrieve_clps inverts (shared with C02-R2 and C10-R3)",
         "C03-R1": "fitted_data = data - residual with the un-weighted residual (weight division dominates it); weighted_residual is the residual before division; residual = weighted / weight; residual, matrix and clp of a dataset are taken under that dataset's own label",
         "C03-R2": "no `x in y` / `x not in y` with y of type str and x a label variable in glotaran/optimization; no orientation decision by comparing .shape",
         "C03-R3": "keys of the group definitions are injective in the label lists (no joining of variable-length labels with an empty separator)",
@@ -462,19 +463,19 @@ def r5(ctx, rule: str = "C03-R5", full_model_only: bool = False) -> None:
 
 
 # ------------------------------------------------------------------------- R6
-def r6(ctx) -> None:
+def r6(ctx, rule: str = "C03-R6") -> None:
     repo = ctx.repo
-    lib.check_filled_items_fresh(ctx, "C03-R6")
+    lib.check_filled_items_fresh(ctx, rule)
     rc = ctx.fn(EST, "EstimationProvider.retrieve_clps")
     fl = lib.flow(rc, repo)
     p = rc.params()
     labels_p, red_labels_p, red_clps_p, index_p = p[1], p[2], p[3], p[4]
     inits = [d for d in fl.defs_of("clps") if d.kind == "assign"]
     ok = any(isinstance(d.value, ast.Call) and norm(d.value.func) in ("np.zeros", "numpy.zeros") and lib.xnorm(fl, d.value.args[0], d.stmt) == f"len({labels_p})" for d in inits)
-    ctx.ob("C03-R6", "retrieve_clps/zero-initialised", ok, rc, inits[0].stmt if inits else rc.node,
+    ctx.ob(rule, "retrieve_clps/zero-initialised", ok, rc, inits[0].stmt if inits else rc.node,
            "the full clp vector starts as zeros over the full label list (constrained clps stay exactly 0)")
     st = [(t, s) for t, s in lib.stores(rc) if isinstance(t, ast.Subscript) and norm(t.value) == "clps"]
-    ctx.sites("C03-R6", "stores into the expanded clp vector", len(st), 2)
+    ctx.sites(rule, "stores into the expanded clp vector", len(st), 2)
     n_copy = n_rel = 0
     for t, s in st:
         it = fl.term(t.slice, s)
@@ -483,7 +484,7 @@ def r6(ctx) -> None:
         # position of a label in the full label list
         is_pos_of = bool(ia and ia[0] == "mcall" and ia[2] == "index" and ia[1] == Poly.atom(("name", labels_p)).key())
         if not is_pos_of:
-            ctx.ob("C03-R6", "retrieve_clps/write-position", False, rc, s,
+            ctx.ob(rule, "retrieve_clps/write-position", False, rc, s,
                    f"`{norm(t)}` must be written at `{labels_p}.index(<label>)` (position in the full label list); index term: {it!r}")
             continue
         label_term = Poly(dict(ia[3][0]))
@@ -493,7 +494,7 @@ def r6(ctx) -> None:
             n_copy += 1
             ok = bool(va and va[0] == "sub" and va[1] == Poly.atom(("name", red_clps_p)).key()
                       and va[2] == Poly.atom(("pos", Poly.atom(("name", red_labels_p)).key())).key())
-            ctx.ob("C03-R6", "retrieve_clps/copy-by-label", ok, rc, s,
+            ctx.ob(rule, "retrieve_clps/copy-by-label", ok, rc, s,
                    "clps[position of label in full list] = reduced_clps[position of the same label in the reduced list]",
                    [f"value term: {vt!r}"])
         else:
@@ -504,20 +505,20 @@ def r6(ctx) -> None:
             tgt_ok = "target" in repr(label_term)
             src_defs = [d for d in fl.defs_of("source_idx") if d.kind == "assign"]
             src_ok = any(norm(d.value) == f"{labels_p}.index(relation.source)" for d in src_defs)
-            ctx.ob("C03-R6", "retrieve_clps/relation-target", ok and tgt_ok and src_ok, rc, s,
+            ctx.ob(rule, "retrieve_clps/relation-target", ok and tgt_ok and src_ok, rc, s,
                    "related clp: clps[index of relation.target] = relation.parameter * clps[index of relation.source], both in the full label list")
 
             def applies(test, pol, at):
                 return pol and f"relation.applies({index_p})" in norm(test)
-            ctx.ob("C03-R6", "retrieve_clps/relation-on-interval", lib.guarded_by(fl, s, applies) is not None, rc, s,
+            ctx.ob(rule, "retrieve_clps/relation-on-interval", lib.guarded_by(fl, s, applies) is not None, rc, s,
                    "a relation is applied only where it applies on the global axis value")
-    ctx.ob("C03-R6", "retrieve_clps/has-copy-and-relation", n_copy == 1 and n_rel == 1, rc, rc.node,
+    ctx.ob(rule, "retrieve_clps/has-copy-and-relation", n_copy == 1 and n_rel == 1, rc, rc.node,
            "one label-keyed copy of the reduced clps and one relation update", construct=f"{n_copy} copy / {n_rel} relation stores")
     # relation loop comes after the copy loop (it reads clps[source])
     loops = lib.nodes(rc, ast.For)
     if len(loops) >= 2:
         loops = sorted(loops, key=lambda n: n.lineno)
-        ctx.ob("C03-R6", "retrieve_clps/relations-after-copy", "enumerate(" in norm(loops[0].iter) and "clp_relations" in norm(loops[-1].iter), rc, loops[-1],
+        ctx.ob(rule, "retrieve_clps/relations-after-copy", "enumerate(" in norm(loops[0].iter) and "clp_relations" in norm(loops[-1].iter), rc, loops[-1],
                "relations are evaluated after all reduced clps were copied (they read the source clp)")
 
 
@@ -528,9 +529,18 @@ def r4(ctx) -> None:
     stacking(ctx, rule="C03-R4")
 
 
+def r7(ctx) -> None:
+    """Result identities rest on the preparation order and on private data (shared with C02-R2 and C10-R3)."""
+    from glint.rules import c02
+    from glint.rules.c10 import r3 as ownership
+
+    c02.r2(ctx, rule="C03-R7")
+    ownership(ctx, rule="C03-R7", scope=("glotaran/optimization/data_provider.py",), floors=False)
+
+
 def check(ctx) -> None:
     for g in check.groups:
         g(ctx)
 
 
-check.groups = [r1, r2, r3, r4, r5, r6]
+check.groups = [r1, r2, r3, r4, r5, r6, r7]
